@@ -125,7 +125,12 @@ func genDocument(g *gen.G, maxPolicies int, allowBig bool, allowDamage bool) *do
 		case 2:
 			txt = g.PolicyText()
 		default:
-			if allowBig && g.T.Intn(3) == 2 {
+			if allowBig && g.T.Intn(40) == 39 {
+				// a token around a power-of-two size limit (64 KiB): limits must not depend on
+				// how the reader chunks the document
+				n := 65536 - 300 + g.T.Intn(1500)
+				txt = `permit (principal, action, resource) when { context.name == "` + strings.Repeat("y", n) + `" };`
+			} else if allowBig && g.T.Intn(3) == 2 {
 				// tokens longer than any buffer
 				if g.T.Bool() {
 					txt = `permit (principal, action, resource) when { context.name == "` + strings.Repeat("日本x", 300+g.T.Intn(100)) + `" };`
